@@ -220,3 +220,56 @@ def _bounded_failed_render(tier, repo):
 
 REG.bounded_check("bounded#failed_render_leaves_nothing_behind", P, _bounded_failed_render,
                   note="Component._render_impl / component_post_render are not under contract: a user callback raises at every site of a render (5 sites x 3 positions x provide x 2 modes); registries, Context layers and render_context depth must be as before.  Known finding F-C06a delimits what IS left behind today (component_context_cache entries, one render_context layer); anything else is a violation")
+
+
+# ------------------------------------------------------------------------------------------------ Component._render
+# From the property ("The original exception type propagates to the caller (annotated with the component path) instead of being
+# swallowed or replaced"): _render is _render_impl inside component_error_message([self.name]) - the SAME arguments go in, the
+# result comes out unchanged, and when _render_impl raises, that very exception object leaves _render (annotated by the
+# context manager, whose contract is above), whatever `raise err from None` does to its __cause__.
+def _render_impl_stub(run, args, kwargs, node):
+    run.ghost["impl_args"] = list(args)
+    n = run.ghost.get("impl_calls")
+    run.ghost["impl_calls"] = Val(TInt, (n.t if n is not None else z3.IntVal(0)) + 1)
+    if run.choose(2, None) == 1:
+        exc = ExcVal("Any", [], site="_render_impl (user code anywhere in the component tree)")
+        _exc_attrs(exc)
+        run.ghost["impl_exc"] = Conc(exc)
+        raise PyRaise(exc)
+    r = Val(TStr, z3.FreshConst(S, "rendered"))
+    run.ghost["impl_result"] = r
+    return r
+
+
+REG.contract(f"{COMP}:Component.name", prop=P, verify=False, result=Str, modifies=[], raises={}, ensures={},
+             note="ASSUMED: the name property (registered_name or the class name) is a read-only str")
+_RARGS = ["context", "args", "kwargs", "slots", "escape_slots_content", "type", "render_dependencies", "request"]
+
+
+def _render_post(c):
+    a = c.ghost["impl_args"]
+    same = [c.run.coerce(a[k], c.old(n).ty).t == c.old(n).t for k, n in enumerate(_RARGS)]
+    return z3.And(c.ghost["impl_calls"].t == 1, c.ghost["cem_entered"].t == 1, len(a) == len(_RARGS), c["result"].t == c.ghost["impl_result"].t, *same)
+
+
+def _cem_cm(run, args, kwargs, node):
+    """component_error_message(path) at a call site, as its own contract (above) describes it: the body's exception object
+    propagates (annotated); nothing is swallowed; GHOST: it was entered"""
+    n = run.ghost.get("cem_entered")
+    run.ghost["cem_entered"] = Val(TInt, (n.t if n is not None else z3.IntVal(0)) + 1)
+
+    def enter():
+        return NONE
+
+    def exit_(exc):
+        return False
+    return Conc(("cm", enter, exit_))
+
+
+REG.contract(
+    f"{COMP}:Component._render", prop=P, calls={"component_error_message": _cem_cm, "self._render_impl": _render_impl_stub},
+    types={"context": Any_, "args": Any_, "kwargs": Any_, "slots": Any_, "escape_slots_content": Bool, "type": Str, "render_dependencies": Bool, "request": Any_},
+    result=Str, modifies=[], raises={"Any": None},
+    ensures={"render_impl_called_once_with_the_same_arguments_and_its_result_returned": _render_post},
+    xensures={"Any": {"the_exception_of_render_impl_itself_propagates": lambda c: z3.BoolVal("impl_exc" in c.ghost and c["raised"].obj is c.ghost["impl_exc"].obj)}},
+)
